@@ -458,6 +458,24 @@ def fam_fold(rng, tier):
     return g
 
 
+def fam_passes(rng, tier):
+    """Shapes aimed at single optimisation passes; group option all_levels: run at -O0..-O3 in BOTH tiers (-O1-only and -O3-only
+    transformations exist: the post-RA ext combiner, LICM)."""
+    g = Fam("passes", rng, all_levels=1)
+    # LICM: a trapping insn with loop-invariant operands behind a zero-divisor guard inside a loop must not be hoisted past the guard
+    for op in ("udiv", "umod", "udivs", "umods"):
+        L1, L2, L3 = g.lab(), g.lab(), g.lab()
+        g.func("licm_guard_" + op, "i64, i64:n, i64:a, i64:d",
+               ["local i64:i, i64:s, i64:t", "mov i, 0", "mov s, 0", "%s:" % L1, "bge %s, i, n" % L3, "beq%s %s, d, 0" % ("s" if op.endswith("s") else "", L2),
+                "%s t, a, d" % op] + (["uext32 t, t"] if op.endswith("s") else []) + ["add s, s, t", "%s:" % L2, "add i, i, 1", "jmp %s" % L1, "%s:" % L3, "ret s"], n="0..2", d="0..3", heavy="1")
+    # chained extensions with the first source redefined in between (ext combiner must not look through a stale definition)
+    for k, (e1, e2) in enumerate((("ext16", "ext8"), ("uext16", "ext8"), ("ext32", "uext16"), ("uext8", "ext16"))):
+        g.func("ext_chain%d" % k, "i64, i64:a", ["local i64:b, i64:c", "%s b, a" % e1, "add a, a, 1", "%s c, b" % e2, "xor c, c, a", "ret c"])
+    # copy of a value, source redefined, copy used (copy propagation across a redefinition)
+    g.func("copy_redef", "i64, i64:a, i64:x", ["local i64:b, i64:c", "mov b, a", "add a, a, x", "mov c, b", "lsh c, c, 1", "xor c, c, a", "ret c"])
+    return g
+
+
 def fam_foldtrap(rng, tier):
     """Constant operands of a division that is NEVER EXECUTED (guarded by a branch the harness never takes): the program
     has no undefined behaviour, so the generator must compile it.  One group per shape: a crash of the dump tool
@@ -501,7 +519,7 @@ def build_corpus(outdir, tier, seed):
             if fn.endswith(".mir") and fn.startswith("c01_"):
                 add("hand_" + fn[4:-4], open(os.path.join(cdir, fn)).read(), "corpus/" + fn)
     # 3. generated families
-    for fam in (fam_cfg, fam_mem, fam_pressure, fam_alloca, fam_ovf, fam_mix, fam_calls, fam_fold):
+    for fam in (fam_cfg, fam_mem, fam_pressure, fam_alloca, fam_ovf, fam_mix, fam_calls, fam_fold, fam_passes):
         g = fam(rng, tier)
         add(g.name, g.text(), "generated family '%s' (VERIF_SEED=%d)" % (g.name, seed), g.opts)
     for g in fam_foldtrap(rng, tier):
